@@ -214,13 +214,10 @@ def ctexts(l):
 
 def check_structure(ctx):
     """model assumption: CP02..CP05 reuse CP01's _handle_segment; the option lists are the ones the model is run with"""
-    from sqlfluff.rules.capitalisation.CP01 import Rule_CP01
-    from sqlfluff.rules.capitalisation.CP02 import Rule_CP02
-    from sqlfluff.rules.capitalisation.CP03 import Rule_CP03
-    from sqlfluff.rules.capitalisation.CP04 import Rule_CP04
-    from sqlfluff.rules.capitalisation.CP05 import Rule_CP05
-    for cls in (Rule_CP02, Rule_CP03, Rule_CP04, Rule_CP05):
-        if cls._handle_segment is not Rule_CP01._handle_segment:
+    real = Real()
+    classes = {code: type(real.rule(code, "consistent")[0]) for code in sorted(NAMES)}
+    for code, cls in classes.items():
+        if cls._handle_segment is not classes["CP01"]._handle_segment:
             ctx.broken_obligation("model assumption: %s inherits Rule_CP01._handle_segment" % cls.__name__, "overridden")
     from sqlfluff.core.rules.config_info import get_config_info
     info = get_config_info()
@@ -278,29 +275,6 @@ def correspondence(ctx, coq_ok):
             expect.append(chunk_hashes([enc_trace(tr) for tr in traces]))
             locate.append(("trace/handle_segment (%s, %s) vs %s._handle_segment over sequences" % (code, pol, code), items, seqs, traces))
 
-    if coq_ok:
-        got = coq.eval_terms(imports, terms, defs=DEFS)
-        for g, e, (name, items, inputs, outs) in zip(got, expect, locate):
-            if list(g) != list(e):
-                bad = next((i for i, (a, b) in enumerate(zip(g, e)) if a != b), min(len(g), len(e)))
-                detail = {"chunk": bad, "model_chunks": len(g), "impl_chunks": len(e)}
-                try:
-                    part = coq.eval_terms(imports, ["firstn %d (skipn %d %s)" % (CHUNK, CHUNK * bad, items)], defs=DEFS)[0]
-                    detail["inputs"] = inputs[CHUNK * bad:CHUNK * bad + CHUNK][:40]
-                    detail["model"] = repr(part)[:3000]
-                    detail["impl"] = repr(outs[CHUNK * bad:CHUNK * bad + CHUNK])[:3000]
-                    if part and isinstance(part[0], list) and all(isinstance(x, int) for x in part[0]):
-                        for i, m in enumerate(part):
-                            ms = "".join(chr(c) for c in m)
-                            if ms != outs[CHUNK * bad + i]:
-                                detail = {"input": inputs[CHUNK * bad + i], "model": ms, "impl": outs[CHUNK * bad + i]}
-                                break
-                except Exception as e2:  # keep the digest mismatch
-                    detail["locate_error"] = repr(e2)
-                ctx.broken_obligation("correspondence " + name, detail)
-        ctx.coverage_extra["exhaustive_transform_strings"] = len(strings) * 6 + len(strings2) * 2
-        ctx.coverage_extra["exhaustive_sequences"] = len(seqs) * 11
-
     # (3) seeded random sequences with ignore_words / ignore_words_regex; (4) malformed stream: full ASCII incl. control characters
     import regex
     rng = ctx.rng
@@ -335,18 +309,44 @@ def correspondence(ctx, coq_ok):
         lits.append("(%s, %s, %s, %s, %s)" % (ccap(pol), copts(opts), ctexts(iw), ctexts(rxs), ctexts(raws)))
         exp.append(enc_trace(tr))
         meta.append({"rule": code, "policy": pol, "raws": raws, "config": extra, "impl_trace": tr})
-    if coq_ok:
-        got = coq.eval_sharded(imports, "run_trace", lits, shard=400, jobs=3, defs=DEFS)
-        for g, e, m, lit in zip(got, exp, meta, lits):
-            if g != e:
-                try:
-                    m["model_trace"] = repr(coq.eval_terms(imports, [
-                        "let '(cap, opts, words, rx, raws) := %s in trace cap opts (skip_of words rx) mem0 raws" % lit], defs=DEFS)[0])
-                except Exception as e2:
-                    m["locate_error"] = repr(e2)
-                ctx.broken_obligation("correspondence trace/handle_segment vs _handle_segment (random sequence)", m)
-                break
-        ctx.coverage_extra["random_sequences"] = len(lits)
+    if not coq_ok:
+        return
+    # one coqc run for everything (start-up dominates): digests of the exhaustive parts, then the random cases in groups of 400
+    groups = list(coq.chunked(lits, 400))
+    got_all = coq.eval_terms(imports, terms + ["map run_trace %s" % coq.clist(g) for g in groups], defs=DEFS)
+    got, got_rand = got_all[:len(terms)], [x for part in got_all[len(terms):] for x in part]
+    for g, e, (name, items, inputs, outs) in zip(got, expect, locate):
+        if list(g) != list(e):
+            bad = next((i for i, (a, b) in enumerate(zip(g, e)) if a != b), min(len(g), len(e)))
+            detail = {"chunk": bad, "model_chunks": len(g), "impl_chunks": len(e)}
+            try:
+                part = coq.eval_terms(imports, ["firstn %d (skipn %d %s)" % (CHUNK, CHUNK * bad, items)], defs=DEFS)[0]
+                detail["inputs"] = inputs[CHUNK * bad:CHUNK * bad + CHUNK][:40]
+                detail["model"] = repr(part)[:3000]
+                detail["impl"] = repr(outs[CHUNK * bad:CHUNK * bad + CHUNK])[:3000]
+                if part and isinstance(part[0], list) and all(isinstance(x, int) for x in part[0]):
+                    for i, m in enumerate(part):
+                        ms = "".join(chr(c) for c in m)
+                        if ms != outs[CHUNK * bad + i]:
+                            detail = {"input": inputs[CHUNK * bad + i], "model": ms, "impl": outs[CHUNK * bad + i]}
+                            break
+            except Exception as e2:  # keep the digest mismatch
+                detail["locate_error"] = repr(e2)
+            ctx.broken_obligation("correspondence " + name, detail)
+    ctx.coverage_extra["exhaustive_transform_strings"] = len(strings) * 6 + len(strings2) * 2
+    ctx.coverage_extra["exhaustive_sequences"] = len(seqs) * 11
+    if len(got_rand) != len(lits):
+        raise coq.CoqError("random sequence results: %d for %d cases" % (len(got_rand), len(lits)))
+    for g, e, m, lit in zip(got_rand, exp, meta, lits):
+        if g != e:
+            try:
+                m["model_trace"] = repr(coq.eval_terms(imports, [
+                    "let '(cap, opts, words, rx, raws) := %s in trace cap opts (skip_of words rx) mem0 raws" % lit], defs=DEFS)[0])
+            except Exception as e2:
+                m["locate_error"] = repr(e2)
+            ctx.broken_obligation("correspondence trace/handle_segment vs _handle_segment (random sequence)", m)
+            break
+    ctx.coverage_extra["random_sequences"] = len(lits)
 
 
 # ----------------------------------------------------------------------------------------------------------------------
@@ -355,6 +355,9 @@ def correspondence(ctx, coq_ok):
 # parsed types (of the INPUT tree) whose unquoted word tokens the property allows to change case
 ALLOWED = {"keyword", "binary_operator", "date_part", "naked_identifier", "properties_naked_identifier", "function_name_identifier",
            "bare_function", "data_type_identifier", "boolean_literal", "null_literal"}
+
+
+UNLEX = {"<unlexable>": "word"}
 
 
 def same_up_to_case(a, b):
@@ -377,29 +380,84 @@ def compare_tokens(in_lex, in_types, out_lex, policies):
     if len(in_lex) != len(out_lex):
         return [("token-count-changed", {}, {"in": len(in_lex), "out": len(out_lex)})], changed
     for i, ((k1, r1), (k2, r2)) in enumerate(zip(in_lex, out_lex)):
+        # a word with a letter the dialect's lexer does not know is lexed as `<unlexable>` but still parsed as an identifier
+        # (the parser matches on the upper-cased raw); changing its case may make it lexable: same class as `word`
+        k1, k2 = UNLEX.get(k1, k1), UNLEX.get(k2, k2)
         if k1 != k2:
             problems.append(("token-kind-changed", {"from": k1, "to": k2}, {"index": i, "in": r1, "out": r2}))
         if r1 == r2:
             continue
-        types = in_types[i] if in_types is not None else None
-        changed.append((i, k1, sorted(types) if types is not None else None, r1, r2))
-        if k1 != "word":
-            problems.append(("frozen-token-changed", {"kind": k1}, {"index": i, "in": r1, "out": r2}))
-        elif types is not None and not (types & ALLOWED):
-            problems.append(("other-kind-changed", {"types": ",".join(sorted(types - {"base", "raw", "word"}))}, {"index": i, "in": r1, "out": r2}))
-        if not same_up_to_case(r1, r2):
-            if "snake" in policies and drop_us(r1).lower() == drop_us(r2).lower() and len(r2) > len(r1):
-                problems.append(("caps-not-case-only", {"policy": "snake", "change": "underscores-inserted"}, {"index": i, "in": r1, "out": r2}))
-            else:
-                pol = "snake" if "snake" in policies else (policies[0] if len(set(policies)) == 1 else "mixed")
-                problems.append(("caps-not-case-only", {"policy": pol, "change": "other"}, {"index": i, "in": r1, "out": r2}))
+        ptype, types = in_types[i] if in_types is not None else (None, None)
+        changed.append((i, k1, ptype, r1, r2))
+        classify_change(i, k1, ptype, types, r1, r2, policies, problems)
+    return problems, changed
+
+
+def check_output(in_lex, in_types, cfg, out, policies):
+    """token-wise comparison; when the output lexes into a different token sequence, decide by walk_compare"""
+    problems, changed = compare_tokens(in_lex, in_types, lex(cfg, out), policies)
+    relex = False
+    if any(p[0] in ("token-count-changed", "token-kind-changed") or p[1].get("change") == "other" for p in problems):
+        p2, c2 = walk_compare(in_lex, in_types, out, policies)
+        if not p2:
+            problems, changed, relex = p2, c2, True
+    return problems, changed, relex
+
+
+def classify_change(i, k1, ptype, types, r1, r2, policies, problems):
+    """one changed token: may it change at all, and is the change case-only"""
+    if k1 != "word":
+        problems.append(("frozen-token-changed", {"kind": k1, "parsed": ptype}, {"index": i, "in": r1, "out": r2}))
+    elif types is not None and not (types & ALLOWED):
+        problems.append(("other-kind-changed", {"types": ",".join(sorted(types - {"base", "raw", "word"}))}, {"index": i, "in": r1, "out": r2}))
+    if not same_up_to_case(r1, r2):
+        if "snake" in policies and drop_us(r1).casefold() == drop_us(r2).casefold() and len(r2) > len(r1):
+            problems.append(("caps-not-case-only", {"policy": "snake", "change": "underscores-inserted"}, {"index": i, "in": r1, "out": r2}))
+        else:
+            pol = "snake" if "snake" in policies else (policies[0] if len(set(policies)) == 1 else "mixed")
+            problems.append(("caps-not-case-only", {"policy": pol, "change": "other"}, {"index": i, "in": r1, "out": r2}))
+
+
+def walk_compare(in_lex, in_types, out, policies):
+    """The property without re-lexing the output: the output must be the concatenation, in order, of the input tokens, each
+    either verbatim or (for an unquoted word of an allowed kind) a case variant of it.  Used when a Unicode case mapping changed
+    the length of a word (e.g. dotted capital I -> i + combining dot) so that the output lexes into different tokens."""
+    problems, changed = [], []
+    pos = 0
+    for i, (k1, r1) in enumerate(in_lex):
+        k1 = UNLEX.get(k1, k1)
+        if out.startswith(r1, pos):
+            pos += len(r1)
+            continue
+        ptype, types = in_types[i] if in_types is not None else (None, None)
+        cand = None
+        for ln in sorted(range(max(1, len(r1) - 3), len(r1) + 4), key=lambda x: abs(x - len(r1))):
+            seg = out[pos:pos + ln]
+            if len(seg) == ln and same_up_to_case(r1, seg):
+                cand = seg
+                break
+        if cand is None and "snake" in policies:
+            for ln in range(len(r1) + 1, 2 * len(r1) + 4):
+                seg = out[pos:pos + ln]
+                if len(seg) == ln and drop_us(seg).casefold() == drop_us(r1).casefold():
+                    cand = seg
+                    break
+        if cand is None:
+            problems.append(("caps-not-case-only", {"policy": policies[0] if len(set(policies)) == 1 else "mixed", "change": "unaligned"},
+                             {"index": i, "in": r1, "out": out[pos:pos + len(r1) + 8]}))
+            return problems, changed
+        changed.append((i, k1, ptype, r1, cand))
+        classify_change(i, k1, ptype, types, r1, cand, policies, problems)
+        pos += len(cand)
+    if pos != len(out):
+        problems.append(("token-count-changed", {}, {"trailing_output": out[pos:pos + 40]}))
     return problems, changed
 
 
 def monitor_task(task):
     """Runs in a worker process.  task: dict(dialect, label, sql, combos=[(rules_pol, feu, crosscheck)])"""
     from sqlfluff.core import Linter
-    res = {"cases": [], "problems": [], "fixes": [], "rule_exceptions": [], "harness": [], "nonascii_len": []}
+    res = {"cases": [], "problems": [], "fixes": [], "rule_exceptions": [], "harness": [], "nonascii_len": [], "relex": []}
     dialect, sql = task["dialect"], task["sql"]
     try:
         base = make_cfg(dialect, {"CP01": "consistent"})
@@ -413,7 +471,7 @@ def monitor_task(task):
         tsegs = [s for s in tree.raw_segments if s.raw != ""]
         in_types = None
         if [r for _, r in in_lex] == [s.raw for s in tsegs]:
-            in_types = [set(s.class_types) | set(getattr(s, "instance_types", ()) or ()) for s in tsegs]
+            in_types = [(s.get_type(), set(s.class_types) | set(getattr(s, "instance_types", ()) or ())) for s in tsegs]
         else:
             res["harness"].append(("tree/lexer token alignment failed", task["label"]))
         unparsable = "unparsable" in tree.type_set()
@@ -429,20 +487,22 @@ def monitor_task(task):
                 d = v.desc() if hasattr(v, "desc") else ""
                 if "Unexpected exception" in d:
                     res["rule_exceptions"].append((task["label"], tag, v.rule_code(), d.split("\n")[0][:120], v.line_no, v.line_pos))
-            problems, changed = [], []
+            problems, changed, relex = [], [], False
             if out != sql:
-                problems, changed = compare_tokens(in_lex, in_types, lex(cfg, out), policies)
+                problems, changed, relex = check_output(in_lex, in_types, cfg, out, policies)
             if cross or problems:
                 out2 = Linter(config=cfg).lint_string(sql, fix=True).fix_string()[0]
                 if out2 != out:
                     res["harness"].append(("lint_parsed on a shared parse differs from lint_string", task["label"], tag))
                     out = out2
-                    problems, changed = ([], []) if out == sql else compare_tokens(in_lex, in_types, lex(cfg, out), policies)
+                    problems, changed, relex = ([], [], False) if out == sql else check_output(in_lex, in_types, cfg, out, policies)
+            if relex:
+                res["relex"].append((task["label"], tag))
             kind = "changed" if out != sql else ("unparsable-unchanged" if unparsable else "unchanged")
             res["cases"].append((task["label"], tag, kind, unparsable))
             for key, attrs, detail in problems:
                 res["problems"].append((key, attrs, {"input": {"dialect": dialect, "file": task["label"], "rules": rules_pol,
-                                                               "fix_even_unparsable": feu, "sql": sql if len(sql) < 3000 else sql[:3000] + "..."},
+                                                               "fix_even_unparsable": feu, "sql": sql},
                                                      "token": detail, "output_excerpt": out[:400]}))
             if len(rules_pol) == 1:
                 pol = policies[0]
@@ -515,11 +575,13 @@ def mutate(cfg, sql, rng):
 EXTRA_SQL = [
     ("ansi", "SELECT fooBar, col1, a_b, ABC, Abc1d, \"quotedCol1\", 'strVal1' FROM myTable1 -- fooBar col1\n"),
     ("ansi", "select a, Sum(b) as total1, cast(c as VarChar(10)), NULL, True, false from t1 Where x1 Is Not Null And y like 'aB1%'\n"),
-    ("tsql", "SELECT [fooBar1], fooBar1, @myVar1, N'strVal' FROM [dbo].[myTable1] AS t1 WHERE GetDate() > dateAdd(day, 1, col1)\n"),
-    ("bigquery", "SELECT `fooBar1`, fooBar1, Safe_Cast(x1 AS int64), r'raw1Str', DATE_ADD(d1, INTERVAL 1 day) FROM `proj.dataSet1.tbl1`\n"),
+    ("tsql", "SELECT [fooBar1], fooBar1, @myVar1, N'strVal' FROM [dbo].[myTable1] AS t1 WHERE GetDate() > dateAdd(day, 1, col1) AND [myFunc1](col1) = 1\n"),
+    ("bigquery", "SELECT `fooBar1`, fooBar1, Safe_Cast(x1 AS int64), r'raw1Str', DATE_ADD(d1, INTERVAL 1 day), `my-proj.myDs1.myFunc1`(x1) FROM `proj.dataSet1.tbl1`\n"),
     ("postgres", "SELECT fooBar1::Int4, E'esc1', $$body1 fooBar$$, \"Qu1\" FROM myTable1 WHERE a1 IS nUll\n"),
     ("snowflake", "select $1, fooBar1:fieldName1::varChar, 'x1' from @myStage1 (file_format => myFmt1)\n"),
     ("mysql", "SELECT `fooBar1`, fooBar1, @userVar1, 'aB1' FROM myTable1 WHERE col1 <=> NULL\n"),
+    ("snowflake", "create file format ff1 type = 'csv' compression = 'gzip';\ncreate warehouse wh1 with warehouse_size = 'xsmall' scaling_policy = 'economy';\n"),
+    ("materialize", "ALTER SINK IF EXISTS sinkName1 SET ( SIZE 'xsmall' );\nselect colA1 from tblB2;\n"),
     ("sparksql", "SELECT fooBar1, `quoted1Col`, named_struct('a1', colB2) FROM myTable1 TBLPROPERTIES\n"),
 ]
 
@@ -628,6 +690,7 @@ def monitor(ctx, coq_ok):
         nexc += len(r["rule_exceptions"])
         exc_samples += r["rule_exceptions"][:2]
         nonascii += r["nonascii_len"]
+        ctx.count("output-lexes-differently-but-case-only", len(r["relex"]))
         for h in r["harness"]:
             if h[0].startswith("tree/lexer"):
                 ctx.count("harness-alignment-fallback")
@@ -643,7 +706,8 @@ def monitor(ctx, coq_ok):
         if len(trip) > limit:
             trip = ctx.rng.sample(trip, limit)
         lits = ["(%d%%N, %s, %s)" % (0 if p == "consistent" else PCODE[p], coq.ctext(a), coq.ctext(b)) for (p, a, b) in trip]
-        got = coq.eval_sharded(["Model.Caps"], "fix_explained", lits, shard=400, jobs=3, defs=DEFS)
+        parts = coq.eval_terms(["Model.Caps"], ["map fix_explained %s" % coq.clist(g) for g in coq.chunked(lits, 400)], defs=DEFS)
+        got = [x for part in parts for x in part]
         for (p, a, b), g in zip(trip, got):
             ctx.case(None, bucket="real-fix-vs-model")
             if g is not True:
@@ -651,6 +715,19 @@ def monitor(ctx, coq_ok):
                                       {"policy": p, "raw": a, "fixed": b})
                 break
         ctx.coverage_extra["real_fixes_checked_against_model"] = len(trip)
+
+
+def replay(ctx, data):
+    """./check C15 --replay file : re-run the recorded input through the real linter and the token-wise oracle"""
+    inp = data["replay"]["input"]
+    r = monitor_task({"dialect": inp["dialect"], "label": inp["file"], "sql": inp["sql"],
+                      "combos": [(inp["rules"], inp.get("fix_even_unparsable", False), True)]})
+    for key, attrs, rep in r["problems"]:
+        print("VIOLATION property=C15 key=%s attrs=%s token=%s" % (key, attrs, rep["token"]))
+    for h in r["harness"]:
+        print("harness note:", h)
+    print("replay: %d problem(s)" % len(r["problems"]))
+    return 1 if r["problems"] else 0
 
 
 def run(ctx, coq_ok):
